@@ -143,6 +143,7 @@ Definition run_cmd (m : ovf_mode) (cmd : tok) (args : list tok) : list byte :=
   else if tok_is cmd "REALNOW" then S_ "OK"     (* the real clock: the implementation's answers are bracketed by the harness' own clock readings *)
   else if tok_is cmd "SCHED" then run_sched args
   else if tok_is cmd "SCHEDX" then run_sched args     (* implementation side: the calls go through other entry points that generate fresh timestamps *)
+  else if tok_is cmd "SCHEDR" then run_sched args     (* implementation side: calls through the random-bundle helpers (two draws per call); judged by the oracle alone *)
   else if tok_is cmd "SCHEDT" then run_sched args     (* implementation side: the clock ticks inside every call; judged by the oracle alone *)
   else if tok_is cmd "STRESS" then       (* free-running threads on the real clock: threads * calls distinct pairs (C09_unique for any schedule) *)
     match args with
@@ -181,6 +182,7 @@ Definition run_cmd (m : ovf_mode) (cmd : tok) (args : list tok) : list byte :=
   else if tok_is cmd "ADMDEC" then run_admdec args
   else if tok_is cmd "SRB" then run_srb m args
   else if tok_is cmd "CORR" then run_corr args
+  else if tok_is cmd "REENC" then run_reenc args
   else if tok_is cmd "JSON" then run_json args
   else if tok_is cmd "JSONX" then S_ "NA"       (* megabyte-sized bundles: implementation + oracle only *)
   else if tok_is cmd "OPSX" then S_ "NA"
